@@ -487,6 +487,10 @@ pub struct Framing {
     pub immediate_wake: bool,
     /// yield an error instead of frame number `error_at`
     pub error_at: Option<usize>,
+    /// stay Pending forever (no wake-up) instead of yielding frame number `stall_at`:
+    /// a client that stopped sending; the driver then drops the request future
+    #[serde(default)]
+    pub stall_at: Option<usize>,
 }
 
 pub struct FramedBody {
@@ -496,6 +500,7 @@ pub struct FramedBody {
     framing: Framing,
     total: u64,
     pub polls: Arc<std::sync::atomic::AtomicU64>,
+    pub stalled: Arc<std::sync::atomic::AtomicBool>,
     sleep: Option<Pin<Box<tokio::time::Sleep>>>,
 }
 
@@ -521,6 +526,7 @@ impl FramedBody {
             framing,
             total: data.len() as u64,
             polls: Arc::new(std::sync::atomic::AtomicU64::new(0)),
+            stalled: Arc::new(std::sync::atomic::AtomicBool::new(false)),
             sleep: None,
         }
     }
@@ -572,6 +578,10 @@ impl http_body::Body for FramedBody {
             return Poll::Pending;
         }
         this.pend_left = None;
+        if this.framing.stall_at == Some(this.idx) {
+            this.stalled.store(true, std::sync::atomic::Ordering::Relaxed);
+            return Poll::Pending;
+        }
         if this.framing.error_at == Some(this.idx) {
             this.idx += 1;
             this.frames.clear();
@@ -642,6 +652,12 @@ impl RawRequest {
 
     /// `None` when the `http` crate refuses the pieces (such a request cannot reach the service)
     pub fn build(&self) -> Option<http::Request<s3s::Body>> {
+        self.build_probe().map(|x| x.0)
+    }
+
+    /// like `build`, and also hands out the flag the framed body sets once it has stalled
+    pub fn build_probe(&self) -> Option<(http::Request<s3s::Body>, Arc<std::sync::atomic::AtomicBool>)> {
+        let mut probe = Arc::new(std::sync::atomic::AtomicBool::new(false));
         let method = Method::from_bytes(self.method.as_bytes()).ok()?;
         let uri: Uri = self.uri.parse().ok()?;
         let mut b = http::Request::builder().method(method).uri(uri);
@@ -661,9 +677,13 @@ impl RawRequest {
                     s3s::Body::from(Bytes::from(self.body.clone()))
                 }
             }
-            Some(f) => s3s::Body::http_body(FramedBody::new(&self.body, f.clone())),
+            Some(f) => {
+                let fb = FramedBody::new(&self.body, f.clone());
+                probe = fb.stalled.clone();
+                s3s::Body::http_body(fb)
+            }
         };
-        b.body(body).ok()
+        b.body(body).ok().map(|r| (r, probe))
     }
 }
 
